@@ -480,19 +480,39 @@ async fn idle(tc: u64, ts: u64, keep_alive: u64, mode: u8) -> Result<String, Str
     }
 }
 
-const REPR_VALUES: [(u128, bool); 7] = [
+/// (milliseconds, representable as a QUIC idle timeout); u128::MAX stands for Duration::MAX. Beyond the 62-bit boundary the
+/// table also walks the 64-bit boundary: values whose millisecond count only fits 128 bits must not wrap into the range.
+const REPR_VALUES: [(u128, bool); 17] = [
     (0, true),
     (1, true),
     (30_000, true),
     ((1u128 << 62) - 1, true),
     (1u128 << 62, false),
     ((1u128 << 64) - 1, false),
-    (u128::MAX, false), // stands for Duration::MAX
+    (u128::MAX, false),
+    ((1u128 << 62) + 1, false),
+    (1u128 << 63, false),
+    (1u128 << 64, false),
+    ((1u128 << 64) + 1_500, false),
+    ((1u128 << 64) + (1u128 << 62) - 1, false),
+    (3 * (1u128 << 64) + 7, false),
+    ((1u128 << 62) * 1_000, false), // Duration::from_secs(1 << 62)
+    ((1u128 << 63) * 1_000, false), // Duration::from_secs(1 << 63)
+    (u64::MAX as u128 * 1_000, false), // Duration::from_secs(u64::MAX)
+    (999 * (1u128 << 64) + 30_000, false),
 ];
+
+fn repr_duration(ms: u128) -> Duration {
+    if ms == u128::MAX {
+        Duration::MAX
+    } else {
+        Duration::new((ms / 1_000) as u64, ((ms % 1_000) * 1_000_000) as u32)
+    }
+}
 
 fn idle_repr(value: u8, side: u8) -> Result<String, String> {
     let (ms, representable) = REPR_VALUES[value as usize];
-    let d = if ms == u128::MAX { Duration::MAX } else { Duration::from_millis(ms as u64) };
+    let d = repr_duration(ms);
     let dbg = if side == 0 {
         ServerConfig::builder().with_bind_default(0).with_identity(identity()).max_idle_timeout(Some(d)).map(|b| format!("{:?}", b.build().quic_config().transport)).map_err(|_| ())
     } else {
@@ -684,7 +704,7 @@ pub fn run_check(args: &Args) -> i32 {
     let rep = Report::new(
         args,
         "exploration",
-        "complete configuration matrices: binding (server/client x 13 ways: six IpBindConfig presets, explicit v4 / v6 address, with_bind_address_v6 x three dual-stack settings, with_bind_default, pre-bound socket; observed on the socket the endpoint would bind and through Endpoint::server / client + local_addr on real OS sockets); TLS defaults (ALPN list, protocol versions) and ALPN negotiation against raw peers offering h3 / hq-29 / both / nothing in both roles; every builder path (identity, custom TLS, custom transport, custom TLS + transport, prebuilt QUIC config) handshaking on the simulated network; idle timeout on each side in {builder default, 1 s, 5 s, (10 min), disabled} x keep-alive off / T/3 x network partition / idle healthy network, measured in virtual time; representability of max_idle_timeout (0, 1 ms, 30 s, 2^62-1 ms, 2^62 ms, 2^64-1 ms, Duration::MAX); client migration with allow_migration on / off; reload_config (identity and transport of new connections, established connection undisturbed)",
+        "complete configuration matrices: binding (server/client x 13 ways: six IpBindConfig presets, explicit v4 / v6 address, with_bind_address_v6 x three dual-stack settings, with_bind_default, pre-bound socket; observed on the socket the endpoint would bind and through Endpoint::server / client + local_addr on real OS sockets); TLS defaults (ALPN list, protocol versions) and ALPN negotiation against raw peers offering h3 / hq-29 / both / nothing in both roles; every builder path (identity, custom TLS, custom transport, custom TLS + transport, prebuilt QUIC config) handshaking on the simulated network; idle timeout on each side in {builder default, 1 s, 5 s, (10 min), disabled} x keep-alive off / T/3 x network partition / idle healthy network, measured in virtual time; representability of max_idle_timeout (0, 1 ms, 30 s, 2^62-1 ms, 2^62 ms, 2^62+1, 2^63, 2^64-1, 2^64, 2^64+1500, 2^64+2^62-1, 3*2^64+7, 999*2^64+30000 ms, 2^62 s, 2^63 s, u64::MAX s, Duration::MAX); client migration with allow_migration on / off; reload_config (identity and transport of new connections, established connection undisturbed)",
     );
     rep.assume("bind rows use real UDP sockets on the loopback / wildcard addresses; IPv6 rows are reported as uncovered when ::1 cannot be bound; the OS default for IPV6_V6ONLY is read from /proc/sys/net/ipv6/bindv6only");
     let scs = scenarios(args.tier);
